@@ -48,7 +48,10 @@ Definition eval_id (c : Z) (sp : option Z) : Z * Z :=
 Definition row_step (ign : bool) (s : st) (sp : option Z) : option st :=
   let '(id, c') := eval_id (ctr s) sp in
   if existsb (Z.eqb id) (ids s) then
-    (if ign then Some {| ctr := c'; ids := ids s; lid := lid s; cnt := cnt s; first := first s; seen := seen s; gens := gens s |}
+    (* INSERT IGNORE: the row is skipped.  GetNextAutoIncrementValue raised the counter of the SESSION's table data, but
+       the statement ends with ApplyEdits from the accumulator's own TableData, whose counter only tableEditor.Insert
+       advances: the raise is lost *)
+    (if ign then Some {| ctr := ctr s; ids := ids s; lid := lid s; cnt := cnt s; first := first s; seen := seen s; gens := gens s |}
      else None)
   else
     Some {| ctr := if id =? c' then c' + 1 else c';
